@@ -1,0 +1,7 @@
+//go:build !verif
+
+package dilithium
+
+// No-op counterpart of the verification hook (see verif_on.go).
+
+func verifSignEvent(exit int, nonce uint16, z *polyVecL, w0, h *polyVecK, hints uint) {}
